@@ -374,6 +374,14 @@ class ProbeSet:
                     s = simple_enum("", "i8", hv)
                     s.attrs = [EAttr("et", items=[I("list", "iter", [P("str", "mode", "range")])]), EAttr("repr", "i8")]
                     self.add("C13", f"iter-range-holes-shape:{'_'.join(map(str, hv))}", "reject", s)
+                # holes whose total size is congruent to 0 modulo 2^8 / 2^16 / 2^32 / 2^64, or that span more than i64 holds:
+                # a gap test done in a narrower or wrapping type would miss them
+                for r, hv in (("i16", (0, 257)), ("u16", (0, 1, 258)), ("u32", (0, 65537)), ("i32", (-32768, 32769)), ("u64", (0, 1, 65538)),
+                              ("i64", (-1, 0, 131073)), ("i64", (0, (1 << 32) + 1)), ("i64", (-(1 << 63), 1)), ("i64", (-(1 << 63), (1 << 63) - 1)),
+                              ("i128", (-2, (1 << 63) - 1)), ("u32", (0, 65536)), ("u64", (5, (1 << 32) + 6))):
+                    s = simple_enum("", r, hv)
+                    s.attrs = [EAttr("et", items=[I("list", "iter", [P("str", "mode", "range")])]), EAttr("repr", r)]
+                    self.add("C13", f"iter-range-holes-wide:{r}:{'_'.join(map(str, hv))}", "reject", s)
             for name, items in cases:
                 s = mk(items)
                 if name == "literal-top":
